@@ -25,7 +25,11 @@ def full(t):
     if k == 'leaf':
         return t[1]
     if k == 'bin':
+        if t[1] in (' ', ':', ','):
+            return '(%s)' % ('%s ' % t[1].strip()).join((full(t[2]), full(t[3])))
         return '(%s %s %s)' % (full(t[2]), t[1], full(t[3]))
+    if k == 'union':
+        return '(%s)' % ', '.join(full(a) for a in t[1])
     if k == 'neg':
         return '-' + full(t[1])
     if k == 'pos':
@@ -210,7 +214,15 @@ class Reject(Exception):
     pass
 
 
-def recognise(toks, binops=('+', '-', '*')):
+class Unspec(Exception):
+    pass
+
+
+def _isref(t):
+    return (t[0] == 'leaf' and t[2] is None) or (t[0] == 'bin' and t[1] == ' ') or t[0] == 'union'
+
+
+def recognise(toks, binops=('+', '-', '*'), operands=None, consts=None, values=None):
     """Reference accept/reject for token sequences over the C18 alphabet.
     Returns ('VALID', tree) | ('UNSPEC', None) | ('INVALID', None).  Top-level
     union A1,A1 is accepted for references only (property C06's operator)."""
@@ -228,6 +240,9 @@ def recognise(toks, binops=('+', '-', '*')):
         return x
 
     LV = {'1': N(1), '"s"': T('s'), 'TRUE': B(True), '#N/A': NA, 'A1': None}
+    if values:
+        LV = values
+    OPERANDS_, CONSTS_ = (operands or OPERANDS), (consts if consts is not None else CONSTS)
 
     def operand_leaf(x):
         return leaf(x, LV[x])
@@ -237,7 +252,14 @@ def recognise(toks, binops=('+', '-', '*')):
         if t in ('+', '-'):
             eat()
             return ('neg' if t == '-' else 'pos', prefix())
-        return primary()
+        p = primary()
+        while peek() == ' ':          # intersection: binds tightest, references only
+            eat()
+            q = primary()
+            if not (_isref(p) and _isref(q)):
+                raise Reject()
+            p = ('bin', ' ', p, q)
+        return p
 
     def expr(minp=0):
         lhs = prefix()
@@ -248,15 +270,18 @@ def recognise(toks, binops=('+', '-', '*')):
             n += 1
         if n > 1:
             unspec[0] = True
-        while peek() in binops and RANK[peek()] >= minp:
-            op = eat()
-            rhs = expr(RANK[op] + 1)
-            lhs = ('bin', op, lhs, rhs)
+        while True:
+            if peek() in binops and RANK[peek()] >= minp:
+                op = eat()
+                rhs = expr(RANK[op] + 1)
+                lhs = ('bin', op, lhs, rhs)
+                continue
+            break
         return lhs
 
     def primary():
         t = peek()
-        if t in OPERANDS:
+        if t in OPERANDS_:
             eat()
             return operand_leaf(t)
         if t == '(':
@@ -267,7 +292,7 @@ def recognise(toks, binops=('+', '-', '*')):
                 while peek() == ',':
                     eat()
                     items.append(expr())
-                if not all(i == leaf('A1', None) or i[0] == 'union' for i in items):
+                if not all(_isref(i) for i in items):
                     raise Reject()
                 x = ('union', items)
             eat(')')
@@ -295,18 +320,17 @@ def recognise(toks, binops=('+', '-', '*')):
             while True:
                 row = []
                 while True:
-                    sign = None
-                    if peek() in ('+', '-'):
-                        sign = eat()
-                    x = peek()
-                    if x not in CONSTS:
-                        raise Reject()
-                    if sign and x != '1':
-                        unspec[0] = True     # signed non-number inside an array constant
-                    eat()
-                    e = operand_leaf(x)
-                    if sign:
-                        e = ('neg' if sign == '-' else 'pos', e)
+                    if peek() in (',', ';', '}'):
+                        unspec[0] = True     # empty element: Excel rejects, property silent
+                        e = ('empty',)
+                    else:
+                        e = expr()
+                    plain = e[0] == 'empty' or (e[0] == 'leaf' and e[1] in CONSTS_)
+                    signed = e[0] in ('neg', 'pos') and e[1][0] == 'leaf' and e[1][2] is not None and e[1][2][0] == 'n'
+                    if not (plain or signed):
+                        # reference / expression / percent inside an array constant: Excel rejects it,
+                        # the property does not mention it (DESIGN.md C18 Excluded): totality only
+                        unspec[0] = True
                     row.append(e)
                     if peek() == ',':
                         eat()
@@ -330,12 +354,14 @@ def recognise(toks, binops=('+', '-', '*')):
             while peek() == ',':
                 eat()
                 items.append(expr())
-            if not all(i == leaf('A1', None) for i in items):
+            if not all(_isref(i) for i in items):
                 raise Reject()
             t = ('union', items)
             unspec[0] = True
         if pos[0] != len(toks):
             raise Reject()
         return ('UNSPEC', None) if unspec[0] else ('VALID', t)
+    except Unspec:
+        return ('UNSPEC', None)
     except Reject:
         return ('INVALID', None)
